@@ -1,30 +1,36 @@
 ------------------------------- MODULE MC_C18 -------------------------------
 (* D: design-level check of the generator model (GoGenModel, L2) against the contract      *)
-(* (L1): over the same type universe as Gen_C18, for the option sets without component     *)
-(* export, every encoding (GoTypes!Enc) of every value of the covering list must be        *)
-(* accepted (GoSchema!Accepts) by the schema the model generates, the references of the    *)
-(* model's output must resolve in its component map, and Enc is defined (non-empty value   *)
-(* list) for every type.                                                                   *)
+(* (L1) over the type universe and the option sets of Gen_C18: with the component map in   *)
+(* which every name holds the schema of its own type, every encoding (GoTypes!Enc) of      *)
+(* every value of the covering list must be accepted (GoSchema!Accepts) by the schema the  *)
+(* model generates, the references of the model's output must resolve in that map, and     *)
+(* Enc is defined (non-empty value list) for every type; and no component may be able to   *)
+(* receive the schema of another type.                                                     *)
 (*   L2Sound        - the plain statement; violated by the pinned design (MC_C18_pinned)   *)
 (*   L2SoundModulo  - the statement outside the listed finding classes (FindingsC18)       *)
 EXTENDS Gen_C18, GoGenModel, FindingsC18
 
-UseAll == opt = "useall"
-
 (* one invariant, so that the model's output and the encodings are computed once per state *)
 Judge(modulo) ==
-   LET s2 == GenRoot(T, UseAll)
-       c2 == GenComps(T, UseAll)
-       gvs == GoVals(T) IN
+   LET m == GenAll(gty, gopt)
+       s2 == m.s
+       c2 == GenComps(gty, gopt)
+       gvs == GoVals(gty)
+       missing == MissingNames(s2, c2) IN
    /\ gvs # <<>>                                      \* Enc is defined for every type of the universe
-   /\ CompsWellFormed(c2) /\ RefsResolve(s2, c2) /\ InFragment(s2, c2)
-   /\ \A i \in DOMAIN gvs :
-         LET v == Enc(T, gvs[i])
-             fails == Fails(s2, c2, v, <<>>)
-             ref == RefAccepts(s2, c2, v) IN
-         /\ ref = ({f \in fails : f.kind # "format"} = {})          \* the two formulations agree
-         /\ IF modulo THEN \A f \in fails : KnownFailure(T, f) ELSE fails = {}
+   /\ CompsWellFormed(c2) /\ InFragment(s2, c2)
+   /\ \A s \in AllS(s2, c2) : ~Has(s, "refraw")
+   /\ UsesTypeNameGen(gopt) => NamesChosen(gty, gopt, s2, c2)
+   (* F-C18-6: only with component export and mutually recursive types can a name receive a foreign schema *)
+   /\ ForeignCands(gopt, m.st) # {} => (modulo /\ ExportsComponents(gopt) /\ MutualRec(gty))
+   /\ IF missing # {} THEN modulo /\ TngMissing(gty, gopt, missing)          \* F-C18-7
+      ELSE \A i \in DOMAIN gvs :
+              LET v == Enc(gty, gvs[i])
+                  fails == Fails(s2, c2, v, <<>>)
+                  ref == RefAccepts(s2, c2, v) IN
+              /\ ref = ({f \in fails : f.kind # "format"} = {})          \* the two formulations agree
+              /\ IF modulo THEN \A f \in fails : KnownFailure(gty, f) ELSE fails = {}
 
-L2Sound == ~Diverges(T) /\ Judge(FALSE)
-L2SoundModulo == IF Diverges(T) THEN SelfEmbedding(T) ELSE Judge(TRUE)
+L2Sound == OptOK => (~Diverges(gty) /\ Judge(FALSE))
+L2SoundModulo == OptOK => IF Diverges(gty) THEN SelfEmbedding(gty) ELSE Judge(TRUE)
 =============================================================================
